@@ -9,16 +9,13 @@ REPLAY = {}
 
 
 def base_problems(build, props, pid):
-    problems = []
-    if not build["ok"]:
-        problems.append("Coq build failed: " + ", ".join(build["failed_files"]) + " :: " + build["log"][-400:])
+    from . import build as buildmod
+
+    problems = buildmod.relevant_failures(pid, build)
     if build["forbidden"]:
         problems.append("forbidden vernacular: " + "; ".join(build["forbidden"][:3]))
     if not props["ok"]:
         problems.append("Props/%s.v does not check: %s" % (pid, props["output"][-400:]))
-    for tr in build.get("translators") or []:
-        if tr["status"] != "ok":
-            problems.append("translator %s: %s" % (tr["file"], tr["status"]))
     return problems
 
 
@@ -1300,6 +1297,10 @@ def check_c08(pid, tier, build, props):
     t = common.Timer()
     problems = base_problems(build, props, pid)
     res = [o for o in _src_results(tier) if "src" in o]
+    for o in res:
+        if "harness_error" in o:
+            problems.append("harness failed on a program: %s" % o["harness_error"])
+    res = [o for o in res if "harness_error" not in o]
     violations = []
     n_prune = ok_prune = n_sem = ok_sem = paths = 0
     streams = {}
@@ -1404,6 +1405,10 @@ def check_c07(pid, tier, build, props):
     t = common.Timer()
     problems = base_problems(build, props, pid)
     allres = _src_results(tier)
+    for o in allres:
+        if "harness_error" in o:
+            problems.append("harness failed on an input: %s" % o["harness_error"])
+    allres = [o for o in allres if "harness_error" not in o]
     violations = []
     outcomes = {}
     paths = 0
@@ -1463,6 +1468,10 @@ def check_c10(pid, tier, build, props):
     t = common.Timer()
     problems = base_problems(build, props, pid)
     allres = _src_results(tier)
+    for o in allres:
+        if "harness_error" in o:
+            problems.append("harness failed on an input: %s" % o["harness_error"])
+    allres = [o for o in allres if "harness_error" not in o]
     violations = []
     n = ok = 0
     sizes = [0, 0, 0]
